@@ -468,6 +468,7 @@ func (vc *VC) callMods(c *ssa.CallCommon, ms *modSet) {
 	}
 	callee := c.StaticCallee()
 	if callee != nil {
+		ms.comps["N_"+sanitize(funcKey(callee))] = "Int" // ghost call counter
 		if vc.isDropped(callee) {
 			return
 		}
